@@ -596,6 +596,15 @@ func (e *Env) evalCall(n *ast.CallExpr) Val {
 		}
 		name, _ := strconv.Unquote(lit.Value)
 		return Int{strconv.Itoa(e.st.calls[name])}
+	case "returns":
+		// returns("name"): how many calls to that callee have returned normally on this path (calls that
+		// exited by panic are counted by calls() only)
+		lit, ok := n.Args[0].(*ast.BasicLit)
+		if !ok {
+			evalFail("returns needs a string literal")
+		}
+		name, _ := strconv.Unquote(lit.Value)
+		return Int{strconv.Itoa(e.st.rets[name])}
 	case "lastresult":
 		// lastresult("name"): first result of the most recent returned call to that source-level callee
 		lit, ok := n.Args[0].(*ast.BasicLit)
